@@ -5,6 +5,9 @@
 package main
 
 import (
+	"fmt"
+	"os"
+	"time"
 	"context"
 	"errors"
 	"sort"
@@ -21,6 +24,8 @@ type memStore struct {
 	mu       sync.Mutex
 	data     map[string]api.MetaMsg
 	failNext bool
+	// gate: when set, every Put announces itself and waits for its release (concurrent reports, op "par")
+	gate chan chan struct{}
 }
 
 var errInjected = errors.New("injected store failure")
@@ -54,6 +59,11 @@ func clone(m api.MetaMsg) api.MetaMsg {
 }
 
 func (s *memStore) Put(ctx context.Context, key string, value api.MetaMsg) error {
+	if g := s.gate; g != nil {
+		rel := make(chan struct{})
+		g <- rel
+		<-rel
+	}
 	s.mu.Lock()
 	defer s.mu.Unlock()
 	if s.failNext {
@@ -167,6 +177,66 @@ func main() {
 				store.failNext = false
 				ev["task"], ev["msg"], ev["kind"], ev["chans"], ev["fault"] = task, msg, kind, chans, fault
 				ev["ready"], ev["err"] = ready, err != nil
+			case "par":
+				// two shards report the same message at the same time: goroutine A reports a, goroutine B reports b.  The
+				// store's Put is gated; both writes are released in the order of the plan when they overlap (w = 1: A's write
+				// lands last, 2: B's), else (the implementation serialises them) one after the other as they arrive.
+				task, msg, kind, a, b, w := hx.S(st, "task"), hx.S(st, "msg"), hx.S(st, "kind"), hx.S(st, "a"), hx.S(st, "b"), hx.I(st, "w")
+				gate := make(chan chan struct{}, 4)
+				store.gate = gate
+				type res struct {
+					ready bool
+					err   error
+				}
+				call := func(ch string, out chan res) {
+					base := api.BaseTaskMsg{TaskID: task, MsgID: msg, TargetChannels: append([]string(nil), targets...), ReadyChannels: []string{ch}}
+					var r res
+					if kind == "coll" {
+						r.ready, r.err = impl.UpdateTaskDropCollectionMsg(ctx, api.TaskDropCollectionMsg{Base: base, DatabaseName: "db", CollectionName: msg, DropTS: 7})
+					} else {
+						r.ready, r.err = impl.UpdateTaskDropPartitionMsg(ctx, api.TaskDropPartitionMsg{Base: base, DatabaseName: "db", CollectionName: "c", PartitionName: msg, DropTS: 7})
+					}
+					out <- r
+				}
+				ra, rb := make(chan res, 1), make(chan res, 1)
+				go call(a, ra)
+				var first chan struct{}
+				select {
+				case first = <-gate:
+				case <-time.After(5 * time.Second):
+					fmt.Fprintln(os.Stderr, "MACHINERY: the first report never reached the store")
+					os.Exit(4)
+				}
+				go call(b, rb)
+				overlap := false
+				var second chan struct{}
+				select {
+				case second = <-gate: // the second report got to its store write while the first one's is still in flight
+					overlap = true
+				case <-time.After(50 * time.Millisecond):
+				}
+				if overlap && w == 1 {
+					close(second)
+					time.Sleep(5 * time.Millisecond)
+					close(first)
+				} else {
+					close(first)
+					if !overlap {
+						select {
+						case second = <-gate:
+						case <-time.After(5 * time.Second):
+							fmt.Fprintln(os.Stderr, "MACHINERY: the second report never reached the store")
+							os.Exit(4)
+						}
+					} else {
+						time.Sleep(5 * time.Millisecond)
+					}
+					close(second)
+				}
+				xa, xb := <-ra, <-rb
+				store.gate = nil
+				ev["task"], ev["msg"], ev["kind"], ev["a"], ev["b"], ev["w"], ev["overlap"] = task, msg, kind, a, b, w, overlap
+				ev["ready"], ev["err"] = xa.ready || xb.ready, xa.err != nil || xb.err != nil
 			case "remove":
 				task, msg, fault := hx.S(st, "task"), hx.S(st, "msg"), hx.B(st, "fault")
 				store.failNext = fault
